@@ -68,10 +68,11 @@ theorem Server.event_not_twice (s : Server) (h : s.frame.next = some true) : s.f
 has been consumed is reflected in the state (now or pending) -/
 def Client.Inv (c : Client) : Prop :=
   (c.next.getD c.state ≠ .disconnected → c.existed = true) ∧
-  (c.transport = true → c.added = false → c.next.getD c.state ≠ .disconnected)
+  (c.transport = true → c.added = false → c.next.getD c.state ≠ .disconnected) ∧
+  (c.added = true → c.renetConnected = false)
 
 theorem Client.inv_init : Client.Inv {} := by
-  constructor <;> intro h <;> simp_all
+  refine ⟨?_, ?_, ?_⟩ <;> intro h <;> simp_all
 
 theorem Client.inv_frame (c : Client) (h : c.Inv) : (c.frame false).Inv := by
   obtain ⟨t, a, e, st, n, rc, pr, rq⟩ := c
@@ -79,14 +80,17 @@ theorem Client.inv_frame (c : Client) (h : c.Inv) : (c.frame false).Inv := by
   · cases t <;> cases a <;> cases e <;> cases st <;> cases rc <;> simp_all [Client.Inv, Client.frame]
   · cases b <;> cases t <;> cases a <;> cases e <;> cases st <;> cases rc <;> simp_all [Client.Inv, Client.frame]
 
-theorem Client.inv_step (c : Client) (o : Op) (h : c.Inv) : (c.step false o).Inv := by
+theorem Client.inv_step (c : Client) (o : Op) (h : c.Inv) : (c.step false false o).Inv := by
   cases o with
-  | insert => exact ⟨h.1, fun _ ha => by simp [Client.step, Client.insert] at ha⟩
-  | remove => exact ⟨h.1, fun ht => by simp [Client.step, Client.remove] at ht⟩
-  | setConnected b => exact h
+  | insert => exact ⟨h.1, fun _ ha => by simp [Client.step, Client.insert] at ha, fun _ => rfl⟩
+  | remove => exact ⟨h.1, fun ht => by simp [Client.step, Client.remove] at ht, fun _ => rfl⟩
+  | setConnected b =>
+    refine ⟨h.1, h.2.1, fun ha => ?_⟩
+    have ha' : c.added = true := ha
+    simp [Client.step, Client.setConnected, ha']
   | frame => exact Client.inv_frame c h
 
-theorem Client.inv_run (c : Client) (ops : List Op) (h : c.Inv) : (ops.foldl (Client.step false) c).Inv := by
+theorem Client.inv_run (c : Client) (ops : List Op) (h : c.Inv) : (ops.foldl (Client.step false false) c).Inv := by
   induction ops generalizing c with
   | nil => exact h
   | cons o ops ih => exact ih _ (Client.inv_step c o h)
@@ -127,20 +131,20 @@ theorem Client.progress (c : Client) (hd : c.next.getD c.state = .disconnected) 
   simp [Client.frame, hd]
 
 theorem Client.progress_verify (c : Client) (hd : c.next.getD c.state = .connecting) (ht : c.transport = true)
-    (hc : c.renetConnected = true) : (c.frame false).next = some .connected := by
+    (ha : c.added = false) (hc : c.renetConnected = true) : (c.frame false).next = some .connected := by
   obtain ⟨t, a, e, st, n, rc, pr, rq⟩ := c
-  simp only at hd ht hc; subst ht hc
+  simp only at hd ht hc ha; subst ht hc ha
   simp [Client.frame, hd]
 
 /-- exactly one `RequestInitialSync` per join: a request is sent only by the frame that requests Connected,
 and the frame after that cannot send another one -/
-theorem Client.request_once (c : Client) :
+theorem Client.request_once (c : Client) (h : c.Inv) :
     ((c.frame false).requests = c.requests + 1 → (c.frame false).next = some .connected) ∧
     ((c.frame false).next = some .connected → ((c.frame false).frame false).requests = (c.frame false).requests) := by
   obtain ⟨t, a, e, st, n, rc, pr, rq⟩ := c
   rcases n with _ | b
-  · cases t <;> cases a <;> cases e <;> cases st <;> cases rc <;> cases pr <;> simp_all [Client.frame]
-  · cases b <;> cases t <;> cases a <;> cases e <;> cases st <;> cases rc <;> cases pr <;> simp_all [Client.frame]
+  · cases t <;> cases a <;> cases e <;> cases st <;> cases rc <;> cases pr <;> simp_all [Client.frame, Client.Inv]
+  · cases b <;> cases t <;> cases a <;> cases e <;> cases st <;> cases rc <;> cases pr <;> simp_all [Client.frame, Client.Inv]
 
 end Conn
 end BevySync
